@@ -45,11 +45,21 @@ structure Call where
   permits : Nat
   /-- the caller itself gave the call up (dropped the response / its connection) -/
   cancelled : Bool
+  /-- request side: how many sends the caller still has to do before its request stream is
+  complete (0 for unary and server-streaming calls, whose request is one message sent with the
+  call; client-streaming and bidi calls send one request message per `reqSend`, the last one
+  half-closes) -/
+  reqLeft : Nat
 deriving Repr
 
-def Call.new (chunks : List (List Item)) : Call :=
+def Call.new (chunks : List (List Item)) (req : Nat) : Call :=
   { plan := chunks.flatten, todo := chunks, sent := [], recv := 0, started := false,
-    permits := 0, cancelled := false }
+    permits := 0, cancelled := false, reqLeft := req }
+
+/-- The handler's LAST phase (the one that ends with the status) needs the complete request: a
+client-streaming handler answers after it has read the request stream to its end, the bidi
+handler sends its status after it has. Earlier phases (headers, response messages) do not. -/
+def Call.reqReady (k : Call) : Bool := k.todo.length != 1 || k.reqLeft == 0
 
 /-- From hyper's point of view the stream no longer keeps the connection alive. -/
 def Call.settled (k : Call) : Bool :=
@@ -151,7 +161,8 @@ def incomingBranch (s : State) : Bool := s.loopRunning && !(s.cfgBiased && sigBr
 inductive Label where
   -- environment
   | offer | sigFire | endIncoming | acceptErr
-  | issue (c : Nat) (chunks : List (List Item))
+  | issue (c : Nat) (chunks : List (List Item)) (req : Nat)
+  | reqSend (c j : Nat)
   | permit (c j : Nat) | freeRun | peerDrop (c : Nat) | cancel (c j : Nat) | ageTick (c : Nat)
   -- tonic: serve_internal
   | loopSig | loopAccept (c : Nat) | loopErr | loopEnd | afterLoop | resolve
@@ -165,7 +176,7 @@ deriving Repr
 /-- Steps taken by the server process itself (tonic + hyper + handler code), as opposed to inputs
 from peers, the scenario and the clock. -/
 def Label.internal : Label → Bool
-  | .offer | .sigFire | .endIncoming | .acceptErr | .issue .. | .permit .. | .freeRun
+  | .offer | .sigFire | .endIncoming | .acceptErr | .issue .. | .reqSend .. | .permit .. | .freeRun
   | .peerDrop .. | .cancel .. | .ageTick .. => false
   | _ => true
 
@@ -201,8 +212,11 @@ def step (s : State) : Label → Option State
   | .endIncoming => if !s.ended then some { s with ended := true } else none
   | .acceptErr =>
     if !s.ended && !s.resolved then some { s with pendingErrs := s.pendingErrs + 1 } else none
-  | .issue c chunks =>
-    updConn s c (fun _ => true) (fun cn => { cn with calls := cn.calls ++ [Call.new chunks] })
+  | .issue c chunks req =>
+    updConn s c (fun _ => true) (fun cn => { cn with calls := cn.calls ++ [Call.new chunks req] })
+  | .reqSend c j =>
+    -- the caller sends the next message of its request stream (the last one half-closes)
+    updCall s c j (fun _ k => decide (0 < k.reqLeft)) (fun k => { k with reqLeft := k.reqLeft - 1 })
   | .permit c j => updCall s c j (fun _ _ => true) (fun k => { k with permits := k.permits + 1 })
   | .freeRun => some { s with freeRun := true }
   | .peerDrop c =>
@@ -282,7 +296,7 @@ def step (s : State) : Label → Option State
   | .produce c j =>
     updCall s c j
       (fun cn k => !cn.closed && k.started && !k.cancelled
-                   && (decide (0 < k.permits) || s.freeRun) && !k.todo.isEmpty)
+                   && ((decide (0 < k.permits) || s.freeRun) && k.reqReady) && !k.todo.isEmpty)
       Call.produce
   | .deliver c j =>
     updCall s c j
